@@ -26,11 +26,15 @@ var boundsExceptions = []boundsException{
 
 // R12.1: every index / slice expression in package codecs is in bounds.
 func runC12Bounds(c *Ctx) {
-	p := c.P
 	c.Rule("R12.1", "E7", "every index and slice expression in package codecs is proven in bounds from dominating length tests (linear reasoning over must-facts); RewritePacket never re-slices or returns its buffer", 40)
-	pk := p.Pkg("codecs")
+	runC12BoundsPkg(c, "codecs")
+}
+
+func runC12BoundsPkg(c *Ctx, pkgName string) {
+	p := c.P
+	pk := p.Pkg(pkgName)
 	if pk == nil {
-		c.Unknown("R12.1", "anchor package codecs", 0, "not found")
+		c.Unknown("R12.1", "anchor package "+pkgName, 0, "not found")
 		return
 	}
 	eng := p.Facts()
